@@ -68,8 +68,8 @@ ToDs9(shape, v) ==
      !.font = IF v.fontname = A THEN A
               ELSE Join2(Join2(Join2(v.fontname, IF v.fontsize = A THEN "10" ELSE v.fontsize), IF v.fontweight = A THEN "normal" ELSE v.fontweight),
                          IF v.fontstyle \in {A, "normal"} THEN "roman" ELSE v.fontstyle),
-     !.dash = IF v.linestyle # A THEN "1" ELSE A,
-     !.dashlist = IF v.linestyle \notin {A, "dashed"} THEN "8 3" ELSE A,
+     !.dash = IF v.linestyle \notin {A, "solid"} THEN "1" ELSE A,               \* a solid line is not a dashed one
+     !.dashlist = IF v.linestyle \notin {A, "dashed", "solid"} THEN "8 3" ELSE A,
      !.textangle = v.rotation,
      !.textrotate = v.textrotate]
 (* the font string written is always the 4-part form; reading it back needs its parts *)
@@ -105,7 +105,7 @@ Opt(x) == {A, x}
 ApiVisuals(sh) ==
   LET fonts == IF sh = "text" THEN {[n |-> "times", z |-> z, w |-> w, t |-> t] : z \in Opt("14"), w \in Opt("bold"), t \in {A, "italic", "normal"}} \cup {[n |-> A, z |-> A, w |-> A, t |-> A]}
                ELSE {[n |-> A, z |-> A, w |-> A, t |-> A]}
-      lines == IF sh \in {"point", "text"} THEN {A} ELSE {A, "dashed", "dashes 8 3"}
+      lines == IF sh \in {"point", "text"} THEN {A} ELSE {A, "dashed", "dashes 8 3", "solid"}
       marks == IF sh = "point" THEN {<<A, A>>, <<"o", A>>, <<"D", "7">>} ELSE {<<A, A>>}
       fills == IF sh \in Fillable THEN {A, "T"} ELSE {A}
   IN {[NoVisual EXCEPT !.fontname = f.n, !.fontsize = f.z, !.fontweight = f.w, !.fontstyle = f.t, !.linestyle = l, !.marker = m[1], !.markersize = m[2],
@@ -118,7 +118,8 @@ WriterDefaultsAreDs9s == Done /\ vis1.fontname # A =>
                            /\ vis2.fontweight = (IF vis1.fontweight = A THEN "normal" ELSE vis1.fontweight)
                            /\ vis2.fontstyle = (IF vis1.fontstyle = A THEN "normal" ELSE vis1.fontstyle)
 SecondCycleFixed == Done => ToVisualW(shape, ToDs9(shape, vis2)) = vis2
-LineStyleSurvives == Done => vis2.linestyle = vis1.linestyle
+Solid(l) == IF l = "solid" THEN A ELSE l                   \* DS9 has no word for "solid": no dash property means a solid line
+LineStyleSurvives == Done => vis2.linestyle = Solid(vis1.linestyle)
 
 (* ---------------- properties ---------------- *)
 (* parsing, serialising and parsing again returns the visual attributes of the first parse *)
